@@ -343,10 +343,14 @@ namespace foonathan
                 if (auto remaining = std::size_t(block_end() - stack_.top()))
                 {
                     auto offset = detail::align_offset(stack_.top(), detail::max_alignment);
-                    if (offset < remaining)
+                    // only if at least one node fits, and the memory must be consumed:
+                    // otherwise the same bytes are handed to a free list again and again
+                    if (offset < remaining
+                        && pool.usable_size(remaining - offset) >= pool.node_size())
                     {
-                        detail::debug_fill(stack_.top(), offset, debug_magic::alignment_memory);
-                        pool.insert(stack_.top() + offset, remaining - offset);
+                        stack_.bump(offset, debug_magic::alignment_memory);
+                        pool.insert(stack_.top(), remaining - offset);
+                        stack_.bump(remaining - offset);
                         return true;
                     }
                 }
